@@ -474,7 +474,7 @@ static char *join_tokens(Token *tok, Token *end) {
   // Compute the length of the resulting token.
   int len = 1;
   for (Token *t = tok; t != end && t->kind != TK_EOF; t = t->next) {
-    if (t != tok && t->has_space)
+    if (t != tok && (t->has_space || t->at_bol))
       len++;
     len += t->len;
   }
@@ -484,7 +484,7 @@ static char *join_tokens(Token *tok, Token *end) {
   // Copy token texts.
   int pos = 0;
   for (Token *t = tok; t != end && t->kind != TK_EOF; t = t->next) {
-    if (t != tok && t->has_space)
+    if (t != tok && (t->has_space || t->at_bol))
       buf[pos++] = ' ';
     strncpy(buf + pos, t->loc, t->len);
     pos += t->len;
